@@ -110,6 +110,9 @@ func runC11(c *sim.Ctx, t *testing.T) {
 				if p.longLived {
 					// a host's long-lived service context: nobody cancels it after the call
 					ctx, cancel = root, func() {}
+				} else if p.cancelAt > 0 {
+					// cancelled from outside, no deadline anywhere (e.g. a shutdown)
+					ctx, cancel = context.WithCancel(root)
 				} else if p.deadline < 0 {
 					ctx, cancel = context.WithDeadline(root, time.Now().Add(p.deadline))
 				} else {
